@@ -169,6 +169,26 @@ def main(argv=None) -> int:
             decided += 1
         if len(samples) < 40:
             samples.append({"program": r["sql"], "leaves": r.get("leaves"), "non_leaf_columns_checked": len(r["obligations"])})
+    # known findings (C17 has only fixed ones): a fixed finding suppresses nothing -- its witness is one more obligation
+    from engines import kf
+    from sqlglot.lineage import lineage as _lineage
+
+    kf_report = []
+    for f in kf.load(PROP):
+        w = f.get("witness")
+        if not w:
+            continue
+        got = leaves_of(_lineage(w["output"], w["sql"], schema=SQLGLOT_SCHEMA, dialect="duckdb"))
+        fails = tuple(w["leaf"]) not in got
+        kf_report.append({"id": f["id"], "status": f["status"], "witness_fails": fails})
+        if fails and f["status"] == "open":
+            print(f"KNOWN-FINDING: property={PROP} {f['id']}: {f['what']}")
+        elif fails:
+            rp = replay(w["sql"], w["output"], w["data1"], w["data2"])
+            if rp.get("ok") and rp.get("differs"):
+                violations.append({"program": w["sql"], "output": w["output"], "missing_leaf": ".".join(w["leaf"]), "lineage_leaves": sorted(got),
+                                   "data1": w["data1"], "data2": w["data2"], "duckdb": {"column_on_data1": rp["col1"], "column_on_data2": rp["col2"]},
+                                   "kind": "fixed-finding-regression:" + f["id"]})
     # sensitivity self-test: dropping a real leaf must be detected by the same obligation
     sens = sensitivity_selftest(K)
     harness_errors = [] if sens["ok"] else ["sensitivity self-test failed: " + json.dumps(sens)[:500]]
@@ -184,11 +204,12 @@ def main(argv=None) -> int:
         "programs": decided, "disagreements_checked": sat_checked, "samples": samples,
         "obligations": sum(len(r["obligations"]) for r in results), "verdict_counts": counts, "skipped_programs": skipped,
         "programs_generated": len(items), "K": K, "spurious": spurious[:10], "solver_wall_s": round(solver_s, 1),
-        "sensitivity_selftest": sens, "encoding_validation": {k: v for k, v in st.items() if k != "failures"},
+        "sensitivity_selftest": sens, "known_findings": kf_report, "encoding_validation": {k: v for k, v in st.items() if k != "failures"},
         "functions_encoded": ["sqlglot.lineage.lineage(None, sql, schema, dialect='duckdb') -> leaves per output column (real code, run concretely)"],
         "bounds": {"database": f"two databases with identical presence flags, <= {K} rows per table, differing only in one base column",
                    "programs": "filter-free family of engines/sqlsmt/gen_lineage.py (projections, derived tables, CTEs used once/twice, UNION ALL, cross joins, "
-                               "scalar aggregate sub-queries, stars, column-list aliases; depth <= 3)",
+                               "scalar aggregate sub-queries incl. ones whose SELECT list uses an outer column, the same alias for different tables in "
+                               "sibling/nested scopes, stars, column-list aliases; depth <= 3)",
                    "outside": "the 'none extra' half and the three invariances (CTE vs derived table, sources argument, alias renaming) are syntactic and NOT decided; "
                               "queries with WHERE/ON/GROUP BY/DISTINCT/ORDER BY (control dependence)"},
         "repo_head": repo_head() + ("+dirty" if repo_dirty() else ""), "harness_errors": harness_errors,
